@@ -40,6 +40,38 @@ UN_ACCEPT = {"Minus": {"i64::wrapping_neg(val)", "i64::wrapping_sub(0, val)", "i
              "LogicalNot": {"(Eq(val, 0) as i64)", "(Eq(0, val) as i64)"}, "BinaryNot": {"Not(val)"}}
 
 
+def parse_number_rule(chk, P):
+    """Every literal kind is converted by the one checked i64 conversion of its digits (prefix skipped) in its radix:
+    the value and the accept/reject verdict of a number do not depend on how it is written."""
+    pn = P.body(PN)
+    if chk.anchor("parse_number", pn):
+        rows = {}
+        for pi in tab.paths(P, pn, to_return_only=True):
+            k = [d[2] for d in pi.decisions() if d[0] == "variant" and d[1] == "try(Parser::get(self)).kind"]
+            if not k or ordrules.ret_shape(pi) == "Err":
+                continue
+            if ordrules.ret_shape(pi) == "Ok":
+                r = canon(terms.strip(pi.ret())[3][0][1])
+            else:
+                # the converted Result returned as a whole (`conv.map_err(..)` without `?`)
+                r = "try(%s)" % canon(pi.ret())
+            m = re.fullmatch(r"try\(Result::map_err\(i64::from_str_radix\((.*), (\d+)\), closure\(\{closure#\d+\}\)\)\)", r)
+            if not m:
+                rows[k[0]] = r
+                continue
+            src = m.group(1)
+            skip = 0
+            m2 = re.fullmatch(r"Index<I> for str>::index\(Parser::text\(self, try\(Parser::get\(self\)\)\), ops::RangeFrom\{start: (\d+)\}\)", src)
+            if m2:
+                skip = int(m2.group(1))
+            elif src != "Parser::text(self, try(Parser::get(self)))":
+                skip = "?" + src
+            for kn in k[0]:
+                rows[kn] = (int(m.group(2)), skip)
+        want = {"DecInt": (10, 0), "HexInt": (16, 2), "BinInt": (2, 2), "OctInt": (8, 0)}
+        chk.require(rows == want, "TAB", "TAB:parse_number:radix-and-prefix", str(rows), "literal kinds are converted as %s, expected %s" % (rows, want), "%s:%d" % (pn.file, pn.line))
+
+
 def run(chk, ctx):
     P = Prog(ctx["facts"])
     chk.explanation = ("C08 decided clause by clause: LEX+TAB (operator spellings: the #[token] literal of each operator kind composed with From<TokenKind> for BinOp/UnaryOp), TAB (precedence compared as an ordered partition, so renumbering is not an alarm), "
@@ -225,29 +257,7 @@ def run(chk, ctx):
         want = {(("args[0]", "args[1]"), "Ne", "Expr::eval(args[1], ctx)"), (("args[0]", "args[2]"), "Eq", "Expr::eval(args[2], ctx)"), (("args[0]",), None, "FromResidual::from_residual(break!(Try::branch(Expr::eval(args[0], ctx))))")}
         chk.require(rows == want and ite[0][1] == 3, "CNT", "CNT:ite:lazy", "condition once; != 0 => exactly args[1]; == 0 => exactly args[2]", "ite evaluates as %s" % sorted(rows, key=str), "%s:%d" % (ib.file, ib.line))
     # 8. literals
-    pn = P.body(PN)
-    if chk.anchor("parse_number", pn):
-        rows = {}
-        for pi in tab.paths(P, pn, to_return_only=True):
-            k = [d[2] for d in pi.decisions() if d[0] == "variant" and d[1] == "try(Parser::get(self)).kind"]
-            if not k or ordrules.ret_shape(pi) != "Ok":
-                continue
-            r = canon(terms.strip(pi.ret())[3][0][1])
-            m = re.fullmatch(r"try\(Result::map_err\(i64::from_str_radix\((.*), (\d+)\), closure\(\{closure#0\}\)\)\)", r)
-            if not m:
-                rows[k[0]] = r
-                continue
-            src = m.group(1)
-            skip = 0
-            m2 = re.fullmatch(r"Index<I> for str>::index\(Parser::text\(self, try\(Parser::get\(self\)\)\), ops::RangeFrom\{start: (\d+)\}\)", src)
-            if m2:
-                skip = int(m2.group(1))
-            elif src != "Parser::text(self, try(Parser::get(self)))":
-                skip = "?" + src
-            for kn in k[0]:
-                rows[kn] = (int(m.group(2)), skip)
-        want = {"DecInt": (10, 0), "HexInt": (16, 2), "BinInt": (2, 2), "OctInt": (8, 0)}
-        chk.require(rows == want, "TAB", "TAB:parse_number:radix-and-prefix", str(rows), "literal kinds are converted as %s, expected %s" % (rows, want), "%s:%d" % (pn.file, pn.line))
+    parse_number_rule(chk, P)
     if spec is not None:
         for kind, rx in (("DecInt", "[1-9][0-9]*"), ("HexInt", "0[xX][0-9a-fA-F]+"), ("BinInt", "0[bB][01]+"), ("OctInt", "0[0-7]*")):
             chk.require(spec.same_language(kind, rx), "LEX", "LEX:literal:%s" % kind, "language of %s == %s" % (kind, rx), "the pattern of %s (%s) does not denote %s" % (kind, [p["src"] for p in spec.patterns(kind)], rx))
